@@ -46,6 +46,16 @@ def check_headers(sgz, S, mode, ctx_labels):
             for f in FIELDS:
                 if g.get(f) != want[i][f]:
                     raise Violation("gen_trace_header", f"trace {i} field {f}: got {g.get(f)} want {want[i][f]} (mode {mode})")
+            # what a caller does with the header it was handed (convert_to_segy itself writes the delay and the
+            # sample count into it) must not show in any header read later from this object
+            for k in list(h)[:3] + [k for k in h if int(k) in (105, 109, 115)]:
+                h[k] = 0x5A5A5A
+        if n:
+            g = {int(k): int(v) for k, v in r.gen_trace_header(0).items()}
+            for f in FIELDS:
+                if g.get(f) != want[0][f]:
+                    raise Violation("gen_trace_header", f"trace 0 field {f} read again after the caller wrote into the headers it had been "
+                                    f"handed: got {g.get(f)} want {want[0][f]} (mode {mode})")
     with SgzReader(sgz) as r:
         for i in range(n):
             h = r.gen_trace_header(i, load_all_headers=True)
@@ -60,6 +70,8 @@ def check_headers(sgz, S, mode, ctx_labels):
             for f in FIELDS:
                 if int(h[f]) != want[i][f]:
                     raise Violation("emulator-header", f"trace {i} field {f}: got {int(h[f])} want {want[i][f]}")
+            for k in list(h)[:2]:
+                h[k] = 0x5A5A5A
     with SgzReader(sgz) as r:
         stored = [int(k) for k in r.stored_header_keys]
         for f in stored:
